@@ -234,6 +234,18 @@ func onlyNetFaults(m map[string]int) bool {
 // lastSeqOfLineage: sequence number of the last store operation performed by
 // the goroutine lineage that made call u (background work is finished then).
 func (r *Run) lastSeqOfLineage(u *UpCall) uint64 {
+	if r.judging {
+		if v, ok := r.lineageEnd[u]; ok {
+			return v
+		}
+		v := r.lastSeqOfLineage0(u)
+		r.lineageEnd[u] = v
+		return v
+	}
+	return r.lastSeqOfLineage0(u)
+}
+
+func (r *Run) lastSeqOfLineage0(u *UpCall) uint64 {
 	if u.Fg {
 		// a foreground call's work ends when its exchange returns
 		if e := r.exchFor(u.Owner, u.OwnerOp); e != nil && e.SeqRet != 0 {
